@@ -363,10 +363,16 @@ func drawAnyFilter(t *rapid.T, names []string) engine.FilterSpec {
 	switch rapid.IntRange(0, 4).Draw(t, "remode") {
 	case 0:
 		s := reDict[rapid.IntRange(0, len(reDict)-1).Draw(t, "re")]
+		if rapid.Bool().Draw(t, "regrammar") {
+			s = engine.DrawRegexp(t, globalNames())
+		}
 		f.NameFilter = &s
 	case 1:
 		if len(f.IncludeNames) == 0 && len(f.ExcludeNames) == 0 {
 			s := reDict[rapid.IntRange(0, len(reDict)-1).Draw(t, "re")]
+			if rapid.Bool().Draw(t, "regrammar") {
+				s = engine.DrawRegexp(t, globalNames())
+			}
 			f.NameFilter = &s
 		}
 	}
